@@ -190,9 +190,10 @@ def search(ctx):
     cl = classes()
     cases = grid(ctx)
     found = []
-    for c in cases:
+    for ci, c in enumerate(cases):
         att, delay, rf, dnr, script, dyn = c
-        res, log = run_impl(att, delay, rf, dnr, script, list, dyn)
+        spelling = (list, tuple, set)[ci % 3]          # the three accepted spellings of the two class lists
+        res, log = run_impl(att, delay, rf, dnr, script, spelling, dyn)
         outs = script + [None] * (att + 1)
 
         def retryable(o):
@@ -218,8 +219,8 @@ def search(ctx):
                 why = "gave up before `attempts` on a retryable error"
         if why:
             found.append({"clause": why, "input": {"attempts": att, "retry_delay": delay, "retry_for": [TAGS[t] for t in rf],
-                          "do_not_retry_for": [TAGS[t] for t in dnr], "outcomes": repr(script)},
-                          "observed": {"result": repr(res), "log": log}, "size": att * 10 + len(script), "case": repr(c)})
+                          "do_not_retry_for": [TAGS[t] for t in dnr], "outcomes": repr(script), "lists_given_as": spelling.__name__},
+                          "observed": {"result": repr(res), "log": log}, "size": att * 10 + len(script), "case": repr(c), "spelling": spelling.__name__})
     # rc[k] = v, rc[k] and del rc[k] are set / get / delete through the same loop: same invocations, same sleeps, same error
     n_sub = 0
     for c in cases[::7]:
@@ -265,6 +266,6 @@ def replay(ctx, obj):
     if not v or not v.get("case"):
         return None
     c = eval(v["case"])
-    res, log = run_impl(*c[:5], list, c[5])
+    res, log = run_impl(*c[:5], {"list": list, "tuple": tuple, "set": set}[v.get("spelling", "list")], c[5])
     print("case", c, "->", res, log, "| recorded:", v["observed"])
     return {"result": repr(res), "log": log} == v["observed"]
